@@ -36,6 +36,17 @@ Print Assumptions C01_step_refines.
 
 (* Non-vacuity: a concrete script with an overwrite, a delete, a batch and a merge meets the
    hypotheses, and its results are computed by the model. *)
+(* "At every moment": the refinement above is about one step at a time; it carries over to several goroutines because
+   the engine performs the log append and the matching index update of a Put, and the existence check, the append and the
+   index removal of a Delete, inside ONE critical section of the engine lock - read off db.go on every run by translator
+   T2 (gen/GenAtomic.v; 1 Lock, 2 deferred Unlock, 3 Unlock, 4 append, 5 index put, 6 index delete, 7 index get).
+   (The interleaving theorem built on it is C08_linearizable.) *)
+From KV Require GenAtomic.
+Theorem C01_every_write_is_one_step_of_the_map :
+  GenAtomic.lockseq_Put = [1; 2; 4; 5] /\ GenAtomic.lockseq_Delete = [1; 2; 7; 4; 6].
+Proof. vm_compute. split; reflexivity. Qed.
+Print Assumptions C01_every_write_is_one_step_of_the_map.
+
 Example C01_nonvacuous :
   let ops := [OpPut [107] [1; 2]; OpPut [107] [3]; OpGet [107]; OpDel [107]; OpGet [107];
               OpBatch false 7 [BPut [97] [9]; BDel [97]; BPut [97] [8]; BGet [97]]; OpMerge [0]; OpGet [97]; OpList] in
